@@ -211,6 +211,42 @@ def rule_max_bound(rep, tname):
            loc(fn), sample={"type": tname, "max": str(mx), "sup_needed": str(sup_needed), "relaxed_difference": str(resid)})
 
 
+def rule_allocate(rep):
+    """input/output_buffer_allocate size the buffers with the *max* getters and the channel count; make_buffer gives every channel that capacity."""
+    facts = rep.ctx.facts
+    R = "R-C04-allocate"
+    tr = facts.traits.get("Resampler")
+    if tr is None:
+        raise ir.AnchorMissing("trait Resampler")
+    for name, getter in (("input_buffer_allocate", "input_frames_max"), ("output_buffer_allocate", "output_frames_max")):
+        fn = [f for f in tr["fns"] if f["name"] == name and f.get("body")]
+        if not fn:
+            rep.ob(R, name, False, "default method not found", "src/lib.rs")
+            continue
+        fn = fn[0]
+        env = {}
+        for s in fn["body"]["stmts"]:
+            if s["k"] == "let" and s["pat"]["k"] == "pident" and s.get("init") is not None:
+                env[s["pat"]["name"]] = s["init"]
+        tail = fn["body"]["stmts"][-1]
+        ok = False
+        if tail["k"] == "expr" and tail["e"].get("k") == "call" and is_path(tail["e"]["f"], "make_buffer") and len(tail["e"]["args"]) == 3:
+            a = [ir.subst(x, env) for x in tail["e"]["args"]]
+            ok = nbit(a[0]) == "self.nbr_channels()" and nbit(a[1]) == "self.%s()" % getter and is_path(a[2], fn["params"][0]["name"])
+        rep.ob(R, name, ok, "%s must return make_buffer(self.nbr_channels(), self.%s(), filled)" % (name, getter), loc(fn), sample={"fn": name, "sized_by": getter})
+    mb = facts.need_free_fn("lib", "make_buffer")
+    ch, fr, filled = [p["name"] for p in mb["params"]]
+    txt = show(mb["body"])
+    caps = [x for x in walk(mb["body"]) if x.get("k") == "call" and is_path(x["f"]) and x["f"]["p"].endswith("with_capacity")]
+    loops = [x for x in walk(mb["body"]) if x.get("k") == "for" and x["iter"].get("k") == "range" and is_path(x["iter"]["hi"], ch)]
+    per_chan = any(any(y.get("k") == "call" and is_path(y["f"]) and y["f"]["p"].endswith("with_capacity") and is_path(y["args"][0], fr) for y in walk(lp["body"])) for lp in loops)
+    resize = any(x.get("k") == "call" and is_path(x["f"], "resize_buffer") and is_path(x["args"][1], fr) for x in walk(mb["body"]))
+    rep.ob(R, "make_buffer", per_chan and resize, "make_buffer gives each of `%s` channels capacity `%s` and fills to `%s` frames when asked" % (ch, fr, fr), loc(mb))
+    rb = facts.need_free_fn("lib", "resize_buffer")
+    ok = any(x.get("k") == "mcall" and x["name"] == "resize" and is_path(x["args"][0], rb["params"][1]["name"]) and nbit(x["args"][1]) == "T::zero()" for x in walk(rb["body"]))
+    rep.ob(R, "resize_buffer", ok, "resize_buffer resizes every channel to `frames` zeros", loc(rb))
+
+
 def rule_fft_siblings(rep):
     facts = rep.ctx.facts
     R = "R-C04-fft-formulas"
@@ -264,12 +300,14 @@ def run(rep):
                 rule_outbound(rep, t, m)
         rep.guarded("R-C04-agree", one)
     rep.guarded("R-C04-fft-formulas", rule_fft_siblings)
+    rep.guarded("R-C04-allocate", rule_allocate)
     import C16
     rep.guarded("R-C16-process", C16.rule_process)
     rep.floor("R-C04-agree", 1 + 14)
     rep.floor("R-C04-counter", 2 + 9)
     rep.floor("R-C04-max-const", 14)
     rep.floor("R-C04-outbound", 2)
+    rep.floor("R-C04-allocate", 4)
     rep.floor("R-C04-max-bound", 2)
     rep.floor("R-C04-fft-formulas", 3)
     rep.floor("R-C16-process", 10)
@@ -277,6 +315,7 @@ def run(rep):
     rep.clause("R-C04-counter", "fixed-input types return the loop's frame counter, incremented once per frame after the write at [n]")
     rep.clause("R-C04-max-const", "*_frames_max() read only fields that no method but the constructor assigns")
     rep.clause("R-C04-max-bound", "fixed-output: input_frames_max() ≥ the supremum of needed_input_size over all reachable states with ≥ 1 frame of rounding slack (sound inequality prover: ceil/floor relaxed in the safe direction, coefficient-sign test)")
+    rep.clause("R-C04-allocate", "input/output_buffer_allocate size by the *_frames_max() getters and nbr_channels(); make_buffer / resize_buffer give every channel that size")
     rep.clause("R-C04-outbound", "fixed-input: the advertised output count accounts for the carried position (today it does not: known finding)")
     rep.clause("R-C04-fft-formulas", "FFT adapters use the same block formulas in constructor, getters and the end-of-call update")
     rep.clause("R-C16-process", "process() sizes its output with output_frames_next() and truncates to the written count (shared with C16)")
